@@ -475,6 +475,15 @@ func tlexer(p *load.Program, s *oblig.Set) {
 		f[fld["readp"]] = absint.NewVar("RP", types.Typ[types.Int])
 		f[fld["writep"]] = absint.NewVar("WP", types.Typ[types.Int])
 		f[fld["lexer"]] = absint.NewVar("LEXER", st.Field(fld["lexer"]).Type())
+		for i := 0; i < st.NumFields(); i++ {
+			switch st.Field(i).Name() {
+			case "stack", "pointers", "readp", "writep", "lexer":
+			default:
+				// any further state is unknown: a primitive that consults it is not a
+				// function of the position, the cache and the live lexer any more
+				f[i] = absint.NewVar("EXTRA."+st.Field(i).Name(), st.Field(i).Type())
+			}
+		}
 		c := in.NewCell(&absint.Struct{T: T, F: f}, "tl")
 		return c, &absint.Ptr{Cell: c}
 	}
@@ -584,7 +593,26 @@ func tlexer(p *load.Program, s *oblig.Set) {
 		} else {
 			b, isC := absint.ConstBool(res)
 			rp, wp := get(c, "readp"), get(c, "writep")
+			// Next is a function of the read position, the cache and the live lexer:
+			// those are what Snapshot/Rollback/Commit restore or deliberately keep
+			foreign := ""
+			for _, cl := range in.CondLog {
+				if !strings.Contains(cl, "(RP,(WP-1))") && !strings.Contains(cl, "lexer.Next()") {
+					foreign = cl
+				}
+			}
+			for i := 0; i < st.NumFields(); i++ {
+				switch st.Field(i).Name() {
+				case "stack", "pointers", "readp", "writep", "lexer":
+				default:
+					if v := absint.Key(c.V.(*absint.Struct).F[i]); v != "EXTRA."+st.Field(i).Name() {
+						foreign = "field " + st.Field(i).Name() + " := " + v
+					}
+				}
+			}
 			switch {
+			case foreign != "":
+				s.Bad("X6", k+" / state outside the transaction", p.Pos(nextFn.Pos()), "Next consults or changes state that Snapshot/Rollback do not restore ("+foreign+"): after a rollback the lexer would not replay the tokens it handed out before", in.CondLog...)
 			case appended == nil && isC && b && rp == "(RP+1)" && wp == "WP":
 				seenReplay = true
 				cond := strings.Join(in.CondLog, "; ")
